@@ -66,7 +66,8 @@ CHECKS = {
              "__update_reference_in_list replaces exactly the old entries "
              "and flips an orientation exactly for a complement; (e) every "
              "location a line can be stored in is named by the holder's "
-             "_backreference_keys (149 cells, worst case of self-links).",
+             "_backreference_keys (149 cells, worst case of self-links). " 
+             "Also decided: no membership test by content (`line in collection`) where the reference graph is built or taken apart (identity_membership).",
         note="Undecided: that lookups by current identifier succeed after "
              "arbitrary histories; run-time aliasing. The ITER rule uses the "
              "shape invariant 'a line found in the state of an element of "
@@ -115,7 +116,8 @@ CHECKS = {
              "path list sizes and the `$`-only-on-last-position validators of "
              "E and F lines; and that Gfa.validate runs the four structural "
              "validators plus rGFA validation exactly for the rgfa dialect and "
-             "is called by Gfa()/read_file at vlevel >= 1.",
+             "is called by Gfa()/read_file at vlevel >= 1. " 
+             "Also decided: the dispatch table of Alignment._from_string over the first non-digit character, with the version and valid flags forwarded to the CIGAR parser.",
         note="Undecided: acceptance of whole concrete documents; the "
              "hand-written alignment scanner used by alignment_gfa2; JSON "
              "well-formedness (json.loads is a non-regular residual, only its "
@@ -138,7 +140,8 @@ CHECKS = {
              "the mentioned class; disconnect performs its six steps in "
              "order; the removal helpers handle every shape of reference; "
              "every mention is re-pointed to the line object when a "
-             "placeholder is replaced (so a rename is written everywhere).",
+             "placeholder is replaced (so a rename is written everywhere). " 
+             "Also decided: no membership test by content in the removal cascade (identity_membership).",
         note="Undecided: textual equality with the re-parsed model on "
              "concrete histories. Known finding: a removed gap stays listed "
              "in its set/path. " + TRUSTED),
@@ -228,7 +231,8 @@ CHECKS = {
              "merges a line of the same record type (all 14 x 2 class pairs) "
              "and every other class falls through to the raising default; "
              "_register_line only raises the counter, unused_name returns its "
-             "successor; the finder tables (line, segment, try_get_*).",
+             "successor; the finder tables (line, segment, try_get_*). " 
+             "Also decided: no line class defines __bool__/__len__, since the duplicate search is tested by truth value (lines_are_truthy); a rename onto the identifier of a placeholder line is refused.",
         note="Undecided: that lookups return the right line after arbitrary "
              "histories; 'changes nothing else' on rename. Known findings: "
              "the ID tags of L and C lines are not in the searched namespace. "
@@ -280,7 +284,8 @@ CHECKS = {
              "Gfa.dovetails/containments) read the collections the reference "
              "names. A wrong cell is a graph a user can write whose edge lands "
              "on the wrong end, so each cell is a necessary condition of the "
-             "property; tests sample a handful of cells.",
+             "property; tests sample a handful of cells. " 
+             "Also decided: reference initialisers do not test membership by content before filing an edge (identity_membership).",
         note="Undecided: the contents of the collections after removals, "
              "renames and placeholder substitution (C02/C03 look at their "
              "structure); `$` correctness against real segment lengths "
@@ -307,7 +312,8 @@ CHECKS = {
              "code defines them through segment ends) for all 4096 link pairs, "
              "and store nothing; the duplicate-link path tolerates exactly the "
              "complement and searches with the complement allowed; a path "
-             "records '-' exactly for a complement match.",
+             "records '-' exactly for a complement match. " 
+             "Also decided: CIGAR.complement on alignments of 0, 1 and 2 operations; path link orientation over the whole link domain.",
         note="Undecided: the laws on concrete multi-operation CIGAR values "
              "beyond the per-code table, arrival-order effects, the "
              "orientation flip on placeholder replacement "
@@ -332,7 +338,8 @@ CHECKS = {
              "inputs; the queue is appended to only in the unknown-version "
              "adder, replayed once in order after the version is fixed, then "
              "cleared; Gfa() and read_file replay after the last line; "
-             "Gfa() refuses unknown version/dialect arguments.",
+             "Gfa() refuses unknown version/dialect arguments. " 
+             "Also decided: GFA1-only record types are refused for custom records at every level; VN values other than 1.0/2.0 are refused at vlevel > 0.",
         note="Undecided: that the inferred version is the same for every "
              "order of a concrete document (the tables make each single "
              "decision right; their composition over arrival orders is not "
@@ -355,7 +362,8 @@ CHECKS = {
              "the library the setter writes the expression the getter reads "
              "(the from/to accessors of E lines used for re-pointing); copy "
              "names skip identifiers in use; unknown distribution policies "
-             "are refused.",
+             "are refused. " 
+             "Also decided: link distribution leaves every neighbour end linked to some copy (all neighbour lists up to 5 links, factors 2-4).",
         note="Undecided: equality of the copies' neighbourhoods, which links "
              "each copy keeps under a distribution policy (an algorithmic "
              "property of _distribute_links on concrete link lists), count "
@@ -379,7 +387,9 @@ CHECKS = {
              "connected_components starts one traversal per unvisited "
              "segment with one shared visited set; no cascade loop can leave "
              "stale edges behind (ITER), so the counts stay right after "
-             "removals.",
+             "removals; every edge is filed once per side even when both "
+             "sides are the same segment end (hairpins, self-alignments), "
+             "which the halving of the counters relies on.",
         note="Undecided: that the traversal computes the partition on "
              "concrete graphs (an algorithmic fact); remove_small_components. "
              + TRUSTED),
@@ -402,7 +412,8 @@ CHECKS = {
              ">= 2, refusing a datatype mismatch; every line the three adders "
              "build from text is constructed with the Gfa's vlevel, for every "
              "record type and version state (write-time validation at >= 2 is "
-             "decided under C20).",
+             "decided under C20). " 
+             "Also decided: field_to_s validates what it writes exactly at level >= 2 for stored text and for encoded objects (write_threshold); validate_field validates the stored value itself, not a lazily decoded copy.",
         note="Undecided: equality of the written text across levels and "
              "monotonic acceptance on concrete documents. " + TRUSTED),
     "C19": dict(
@@ -423,7 +434,8 @@ CHECKS = {
              "record type, field names and, per field, values or written "
              "forms of both sides (so identifiers equal live references). A "
              "mutable value taking the 'share' action is state shared between "
-             "clone and original, hence necessary.",
+             "clone and original, hence necessary. " 
+             "Also decided: attributes set only by the construction from text (custom records) reach the clone as new objects; the value classes clone() shares are immutable (no mutating method, no outside assignment).",
         note="Undecided: aliasing created after cloning, equality on concrete "
              "values. The mutable/immutable classification of value classes "
              "is in spec.py and trusted. " + TRUSTED),
@@ -446,7 +458,8 @@ CHECKS = {
              "the values spelled outside it (non-finite floats, empty arrays) "
              "are reported by validate_decoded; decoder classes are accepted "
              "by the encoder; field_to_s validates what it writes exactly at "
-             "vlevel >= 2.",
+             "vlevel >= 2. " 
+             "Also decided: delete() forgets the datatype of the deleted tag; classes the encoder accepts pass validate_decoded without a foreign exception.",
         note="Undecided: decode(encode(v)) == v on concrete values (a value "
              "law). The output languages of the CPython primitives are "
              "transcribed in rules/c20.py and trusted. Known finding: scalar "
